@@ -78,6 +78,9 @@ func (p *Prog) buildCallersLite() {
 	}
 	p.staticCallers = map[*ssa.Function][]ssa.CallInstruction{}
 	for _, f := range p.AllFuncs {
+		if f.Synthetic != "" {
+			continue // promoted-method / bound-method wrappers only forward
+		}
 		for _, b := range f.Blocks {
 			for _, ins := range b.Instrs {
 				if c, ok := ins.(ssa.CallInstruction); ok {
